@@ -3,6 +3,7 @@ import QmiModel.Model.TextLayout
 import QmiModel.Model.Store
 import QmiModel.Model.Recorder
 import QmiModel.Model.Hdf5Map
+import QmiModel.Model.DataSetApi
 import Drv.Common
 /-!
 Line-protocol driver for the C17 models.  Strings travel as comma-separated code points, `-` for the
@@ -14,11 +15,12 @@ empty string, `~` for Python `None`.  One output line per input line; `bad-op` o
   l write <dims,> <ncol> <scale flags per axis 0/1>       -> tags;row|row|…   (cells: index n, data 1000000+k, scale 2000000+10000*ax+i)
   l read <dims,> <ncol> <tags,|-> <row|row|…>             -> ok <data,>;<scale or ~ per axis, '/' separated> | err:<kind>
   f init | f write <name> <h|t|o> <ow> <fail cause 0..3> <content> | f read <name> | f ls
+  d new <shape,> | d scale <axis> <len> <finite> | d axis <axis> | d col <col>    (DataSet constructor / setters)
   x f64 <n> | x refuses <n,n,…>                           (text writer's exactness check)
   s init | s addfile <date> | s addchild <date> <name> <isdir> | s mk <label> <hasTs> <date|~> <time|~> <ddate> <dtime>
         | s latest <label> <date|~> | s list <label|~> | s ls
   h <naxes> <ncol> <ts> <labels…>                         (see `hLine`)
-  r init | r rec <d> <v,v,…|-> | r attr <d> <k> <v> | r shutdown | r swap | r flush | r file
+  r init | r rec <d> <v,v,…|-> | r attr <d> <k> <v> | r shutdown | r swap | r flush | r crash | r close | r file
 -/
 open QmiModel.C17
 
@@ -179,7 +181,7 @@ def showRec (r : RecDrv) : String :=
   " A{" ++ showAttrMap r.ds r.ks r.s.sattrs ++ "} L{" ++ showBlockMap r.ds r.s.loc ++
   "} N{" ++ showAttrMap r.ds r.ks r.s.newA ++ "} P{" ++ showAttrMap r.ds r.ks r.s.pendA ++
   "} sd" ++ (if r.s.shutdown then "1" else "0") ++ " q" ++ (if r.s.quit then "1" else "0") ++
-  " " ++ (match r.s.pc with | .idle => "idle" | .flushing => "flushing" | .done => "done")
+  " " ++ (match r.s.pc with | .idle => "idle" | .flushing => "flushing" | .done => "done" | .failed => "failed")
 
 def showFile (r : RecDrv) : String :=
   let l := (r.ds.filter (fun d => r.s.file d ≠ [])).map (fun d =>
@@ -196,6 +198,7 @@ structure St where
   dstore : DStore := []
   rc : RecDrv := { s := RecSt.init, ds := [], ks := [] }
   serial : Nat := 0
+  api : Option DSApi := none
 
 def storeMk (st : St) (label hasTs date time dd dt : String) : St × String :=
   match parseCps label, parseBool hasTs, parseOptCps date, parseOptCps time, parseCps dd, parseCps dt with
@@ -297,6 +300,31 @@ def stepLine (st : St) (line : String) : St × String :=
     | none => (st, "bad-op")
   | ["x", "f64", n] => (st, match n.toNat? with | some v => toString (toF64 v) | none => "bad-op")
   | ["x", "refuses", vals] => (st, match parseNats vals with | some vs => (if refusesInts vs then "1" else "0") | none => "bad-op")
+  | ["d", "new", shape] =>
+    let sh := if shape == "-" then some [] else (shape.splitOn ",").foldr (fun t acc => match t.toInt?, acc with
+      | some n, some l => some (n :: l)
+      | _, _ => none) (some [])
+    (match sh with
+     | some sh =>
+       match DSApi.new sh with
+       | .ok d => ({ st with api := some d }, "ok " ++ ",".intercalate (d.dims.map toString) ++ ";" ++ toString d.ncol)
+       | .error e => ({ st with api := none }, excStr e)
+     | none => (st, "bad-op"))
+  | ["d", "scale", axis, len, fin] =>
+    (match st.api, axis.toInt?, len.toNat?, parseBool fin with
+     | some d, some a, some n, some f =>
+       match d.setScale a n f with
+       | .ok d' => ({ st with api := some d' }, "ok " ++ ",".intercalate (d'.scales.map (fun x => match x with | some k => toString k | none => "~")))
+       | .error e => (st, excStr e)
+     | _, _, _, _ => (st, "bad-op"))
+  | ["d", "axis", axis] =>
+    (match st.api, axis.toInt? with
+     | some d, some a => (st, if d.axisIndexOk a then "ok" else excStr .valueError)
+     | _, _ => (st, "bad-op"))
+  | ["d", "col", col] =>
+    (match st.api, col.toInt? with
+     | some d, some c => (st, if d.colIndexOk c then "ok" else excStr .valueError)
+     | _, _ => (st, "bad-op"))
   | ["s", "ls"] => (st, showDStore st.dstore)
   | ["r", "init"] => ({ st with rc := { s := RecSt.init, ds := [], ks := [] } }, "ok")
   | ["r", "rec", d, vals] =>
@@ -318,6 +346,11 @@ def stepLine (st : St) (line : String) : St × String :=
     let (r', o) := recAct st.rc .shutdown; ({ st with rc := r' }, if o == "not-enabled" then o else "ok")
   | ["r", "swap"] => let (r', o) := recAct st.rc .swap; ({ st with rc := r' }, o)
   | ["r", "flush"] => let (r', o) := recAct st.rc .flush; ({ st with rc := r' }, o)
+  | ["r", "crash"] => let (r', o) := recAct st.rc .crash; ({ st with rc := r' }, o)
+  | ["r", "close"] => (st, match closeResult st.rc.s with
+      | some .ok => "ok"
+      | some .runtimeError => "exc:QMI_RuntimeException"
+      | none => "not-finished")
   | ["r", "file"] => (st, showFile st.rc)
   | _ => (st, "bad-op")
 
